@@ -33,7 +33,7 @@ class C01(Prop):
     id = "C01"
     PARALLEL = True
     USES_IMPL = True
-    CASE_TIMEOUT = 15
+    CASE_TIMEOUT = 60
     rule = ("random full-field programs (the lowering's form) with nested scf.for/scf.if/calls/arith, traced by the real "
             "accfg-trace-states; every individual rewrite of accfg-dedup is replayed through the model; non-trivial = dedup performed "
             "at least one rewrite inside control flow")
